@@ -98,6 +98,45 @@ def check_design(d, name="MCdesign", size="small", nslots=3, maxfills=2, maxops=
     return r
 
 
+def apalache_inductive(main, modules, timeout=600):
+    """Apalache: Init => IndInv (length 0), IndInv /\\ NextU => IndInv' (length 1), and - as a sanity check of the
+    set-up - a plainly false invariant must be refuted.  Returns a tlc.run-shaped result."""
+    import os
+    import shutil
+    import subprocess
+    import time
+
+    sc = os.path.join(tlc.scratch(), "apa_%d_%d" % (os.getpid(), int(time.time() * 1000) % 100000))
+    os.makedirs(sc, exist_ok=True)
+    for m in modules:
+        shutil.copy(os.path.join(tlc.SPEC, m), sc)
+    t0 = time.time()
+    out, err = "", None
+
+    def run(args):
+        p = subprocess.run(["apalache-mc", "check", "--out-dir=" + os.path.join(sc, "out")] + args + [main + ".tla"], cwd=sc,
+                           stdout=subprocess.PIPE, stderr=subprocess.STDOUT, timeout=timeout)
+        return p.returncode, p.stdout.decode(errors="replace")
+
+    try:
+        steps = [("base", ["--init=Init", "--inv=IndInv", "--next=NextU", "--length=0"], 0),
+                 ("step", ["--init=IndInit", "--inv=IndInv", "--next=NextU", "--length=1"], 0),
+                 ("sanity", ["--init=IndInit", "--inv=WrongInv", "--next=NextU", "--length=1"], 12)]
+        for name, args, want in steps:
+            rc, o = run(args)
+            out += "== %s (exit %d)\n%s\n" % (name, rc, o[-1500:])
+            if rc != want:
+                if name != "sanity" and rc == 12:
+                    err = "Invariant IndInv is violated (Apalache, %s case)" % name
+                else:
+                    err = "apalache %s: unexpected exit code %d" % (name, rc)
+                break
+    except Exception as e:  # noqa: BLE001
+        err = "apalache could not be run: %r" % (e,)
+    shutil.rmtree(sc, ignore_errors=True)
+    return {"out": out, "prints": [], "states": 0, "distinct": 0, "wall": time.time() - t0, "error": err}
+
+
 def simulate(d, num, depth_fills, depth_ops, seed, name="MCsim", size="full", nslots=3, late=True,
              weights=None, factors=None, timeout=600, data=None):
     """random behaviours of HgSystem (tlc -simulate); returns list of operation sequences"""
